@@ -4,7 +4,7 @@
      - returns a non-OK status, has had exactly the first `budget` bytes of bs accepted and leaves
        the stream exhausted when budget < |bs| (so that every later write of >= 1 byte fails too).
    Statements only; proofs in PrimFacts, ObjFacts, VaFacts, SliceFacts, FileFacts. *)
-From Sbdf Require Import ImpCall Gen.Prog ImpFacts ImpFacts7 ImpFactsFrame.
+From Sbdf Require Import ImpCall Gen.Prog ImpBase ImpFacts7W ImpFactsFrameW.
 From Coq Require Import List.
 From Sbdf Require Import File PrimFacts SevenBit ObjFacts VaFacts SliceFacts MdFacts TmFacts FileFacts.
 
